@@ -33,7 +33,10 @@ def main():
         if len(need) > 130:
             need = need[:127] + "..."
         for p, det in r["detail"].items():
-            out.append("| %s | %s (%s) | %s | `%s` |" % (r["name"], summ, need, p if p in r["caught_by"] else "**missed**", cls_of(det)))
+            verdict = p if p in r["caught_by"] else "**missed**"
+            if meta.get("neutralised_by_fix") and p not in r["caught_by"]:
+                verdict = "no longer a violation (needed a defect since repaired in /repo; caught before the repair)"
+            out.append("| %s | %s (%s) | %s | `%s` |" % (r["name"], summ, need, verdict, cls_of(det)))
     md = json.load(open(os.path.join(ROOT, "selftest", "mutants.json")))
     out.append("\n**Own mutant catalogue** (`tools/mutants.py`; includes the reversal of every repaired defect; "
                "`tests` = does the repository's suite still pass with the mutant):\n")
